@@ -190,9 +190,20 @@ pub fn step<L: Handle>(l: &mut L, probes: bool) -> Step {
         }
     };
     let events = l.h_state().log.get(before..).map(|s| s.to_vec()).unwrap_or_default();
+    let mut item = item;
     let probe = if probes && !matches!(item, Item::Panic(_)) {
-        let (ps, pe) = l.h_match_loc();
-        Some((ps, pe, l.h_peek()))
+        // the probe uses the handle methods `match_loc()` and `peek()`: a panic in them is a panic of the lexer
+        match std::panic::catch_unwind(std::panic::AssertUnwindSafe(|| {
+            let (ps, pe) = l.h_match_loc();
+            (ps, pe, l.h_peek())
+        })) {
+            Ok(p) => Some(p),
+            Err(e) => {
+                let msg = e.downcast_ref::<String>().cloned().or_else(|| e.downcast_ref::<&str>().map(|s| s.to_string())).unwrap_or_default();
+                item = Item::Panic(format!("in peek()/match_loc() after the call: {msg}"));
+                None
+            }
+        }
     } else {
         None
     };
